@@ -6,6 +6,7 @@
   one axis with `s = 4`; an MGrid is the concatenation of the axes of its factors).
 -/
 import NiftyVerif.Lemmas.Grid
+import NiftyVerif.Lemmas.GridNest
 
 namespace NiftyVerif.C31
 open NiftyVerif.Grid
@@ -127,6 +128,34 @@ theorem flat_parent_commutes_serial (g : FlatLevel) (ho : g.o = FlatOrd.serial) 
   rw [ho] at this
   exact this
 
+/-! ### flattened grids, nest (level-interleaved) ordering -/
+
+/-- **flat_roundtrip_nest**: `flatindex2index(index2flatindex(idx)) = idx` for the nest ordering, for every number of
+    levels and dimensions; `rows = _weights_nest` = `(base_shape,) + splits of all coarser levels` -/
+theorem flat_roundtrip_nest (shape : List Nat) (bases : List (List Nat)) (idx : List Nat)
+    (hidx : idx.length = shape.length) (hr : Rows shape.length (weightsNest shape bases))
+    (hp : PosRows (weightsNest shape bases))
+    (hlt : ∀ ax, ax < shape.length → idx.getD ax 0 < colAt ax (weightsNest shape bases)) :
+    unravelNest shape bases (ravelNest shape bases idx) = idx := by
+  unfold unravelNest ravelNest
+  exact nest_roundtrip_rows shape.length (weightsNest shape bases) idx hidx hr hp hlt
+
+/-- on grids whose shape is `base_shape * prod(splits)` (every regular / HEALPix / product grid) the bound above is
+    `idx < shape` -/
+theorem nest_bound_is_shape (shape : List Nat) (bases : List (List Nat)) (hb : Rows shape.length bases) (ax : Nat)
+    (hax : ax < shape.length) (hdvd : colAt ax bases ∣ shape.getD ax 1) :
+    colAt ax (weightsNest shape bases) = shape.getD ax 1 := colAt_weightsNest shape bases hb ax hax hdvd
+
+/-- instance of `flat_parent_commutes` for the nest ordering -/
+theorem flat_parent_commutes_nest (g : FlatLevel) (ho : g.o = FlatOrd.nest) (idx : List Nat)
+    (hidx : idx.length = g.shape.length) (hr : Rows g.shape.length (weightsNest g.shape g.bases))
+    (hp : PosRows (weightsNest g.shape g.bases))
+    (hlt : ∀ ax, ax < g.shape.length → idx.getD ax 0 < colAt ax (weightsNest g.shape g.bases)) :
+    flatParent g (ravelNest g.shape g.bases idx) = ravelNest g.parentShape g.bases.dropLast (parentVec g.ax idx) := by
+  have := flat_parent_commutes g idx (by rw [ho]; exact flat_roundtrip_nest g.shape g.bases idx hidx hr hp hlt)
+  rw [ho] at this
+  exact this
+
 /-! ### coordinates and volumes (exact) -/
 
 /-- `coord2index` before rounding inverts `index2coord` exactly, in every field of characteristic zero -/
@@ -178,6 +207,7 @@ example : children ax0 [2, 1] = [[2, 3], [2, 4], [2, 5], [3, 3], [3, 4], [3, 5]]
 example : parentVec ax1 [3, 5] = [2, 1] := by decide
 example : isRefinedVec ax0 [2, 1] = true ∧ isRefinedVec ax0 [0, 1] = false := by decide
 example : unravelSerial [3, 4, 5] (ravelSerial [3, 4, 5] [2, 3, 1]) = [2, 3, 1] := by decide
+example : unravelNest [12, 12] [[2, 3], [2, 2]] (ravelNest [12, 12] [[2, 3], [2, 2]] [7, 5]) = [7, 5] := by decide
 example : neighbor 5 3 0 0 = 4 ∧ neighbor 5 3 4 2 = 0 := by decide
 example : index2coord (K := Rat) 6 2 (3 : Rat) = 11 / 20 := by decide +kernel
 
